@@ -333,6 +333,14 @@ class Interp:
             self.outside(f"int attribute {name}", node)
         if isinstance(obj, Opaque):
             return Opaque(f"{obj.tag}.{name}", obj)
+        if type(obj).__name__ == "SStr":
+            if name in ("lower", "strip"):
+                return BoundMethod(("sstr", name), obj)
+            self.outside(f"string method {name}", node)
+        if type(obj).__name__ == "SSet":
+            if name in ("add", "copy"):
+                return BoundMethod(("sset", name), obj)
+            self.outside(f"set method {name}", node)
         if isinstance(obj, SFmt):
             if name in ("lower", "strip", "upper"):
                 return BoundMethod(("sfmt", name), obj)
@@ -490,12 +498,36 @@ class Interp:
             h = pybuiltins.TYPE_HANDLERS.get(fn)
             if h is not None:
                 return h(self, args, kwargs, node)
-            if self.is_repo_class(fn) or any(contains_symbolic(a) for a in list(args) + list(kwargs.values())):
+            symbolic_args = any(contains_symbolic(a) for a in list(args) + list(kwargs.values()))
+            if issubclass(fn, (dict, list, set)) and not symbolic_args:
+                return self.native_call(fn, args, kwargs, node)  # e.g. IdMap(): a dict subclass
+            if self.is_repo_class(fn) or symbolic_args:
                 return self.instantiate(fn, args, kwargs, node)
             return self.native_call(fn, args, kwargs, node)
         h = pybuiltins.HANDLERS.get(fn) if _hashable(fn) else None
         if h is not None:
             return h(self, args, kwargs, node)
+        if isinstance(fn, types.BuiltinMethodType) and isinstance(getattr(fn, "__self__", None), str) and fn.__name__ == "join" and len(args) == 1:
+            from . import ops
+
+            items = [ops.to_text(self, x, node) for x in self.iterate(args[0], node)]
+            if all(isinstance(x, str) for x in items):
+                return fn.__self__.join(items)
+            parts = []
+            for i, x in enumerate(items):
+                if i:
+                    parts.append(fn.__self__)
+                parts.append(x)
+            return SFmt(parts)
+        if isinstance(fn, types.BuiltinMethodType) and isinstance(getattr(fn, "__self__", None), (list, dict)):
+            # container spines are concrete: structural methods never inspect the (symbolic) elements
+            owner = fn.__self__
+            safe = {"append", "extend", "insert", "clear", "copy", "reverse", "items", "keys", "values"} if isinstance(owner, list) else {"items", "keys", "values", "clear", "copy"}
+            if fn.__name__ in safe or (fn.__name__ == "pop" and isinstance(owner, list) and not contains_symbolic(list(args))):
+                try:
+                    return fn(*args, **kwargs)
+                except Exception as e:
+                    raise PyExc(type(e), e.args, where=getattr(node, "lineno", None))
         if isinstance(fn, (types.BuiltinFunctionType, types.BuiltinMethodType, types.MethodWrapperType, types.MethodDescriptorType, types.WrapperDescriptorType)):
             return self.native_call(fn, args, kwargs, node)
         if callable(fn) and not contains_symbolic(list(args) + list(kwargs.values())):
@@ -627,6 +659,11 @@ class Interp:
                     frame.yields = []
                 elif isinstance(n, (ast.YieldFrom, ast.Await)) and self._owner_def(fnode, n):
                     self.outside("yield from / await body", n)
+            loops = sorted(
+                (n for n in ast.walk(fnode) if isinstance(n, (ast.For, ast.While)) and self._owner_def(fnode, n)),
+                key=lambda n: (n.lineno, n.col_offset),
+            )
+            frame.loop_index = {id(n): i + 1 for i, n in enumerate(loops)}
             params = fnode.args
             if params.args or params.posonlyargs:
                 first = (params.posonlyargs + params.args)[0].arg
@@ -955,9 +992,19 @@ class Interp:
             raise
         run_final()
 
+    def loop_spec(self, s, frame):
+        """sidecar invariant of this loop statement, keyed by the function's
+        qualname and the loop's ordinal in source order (1-based)"""
+        f = frame
+        while f is not None and getattr(f, "loop_index", None) is None:
+            f = f.enclosing
+        if f is None:
+            return None
+        k = f.loop_index.get(id(s))
+        return LOOP_INVARIANTS.get((f.func_name, k)) if k else None
+
     def s_While(self, s, frame):
-        frame.loop_ordinal += 1
-        spec = LOOP_INVARIANTS.get((frame.func_name, frame.loop_ordinal))
+        spec = self.loop_spec(s, frame)
         if spec is not None:
             return self.loop_with_invariant(s, frame, spec, kind="while")
         n = 0
@@ -976,8 +1023,7 @@ class Interp:
                 continue
 
     def s_For(self, s, frame):
-        frame.loop_ordinal += 1
-        spec = LOOP_INVARIANTS.get((frame.func_name, frame.loop_ordinal))
+        spec = self.loop_spec(s, frame)
         if spec is not None:
             it = self.eval(s.iter, frame) if getattr(spec, "eval_iterable", True) else None
             return self.loop_with_invariant(s, frame, spec, kind="for", iterable=it)
